@@ -21,7 +21,7 @@ var c07SigHint = regexp.MustCompile(`\+A[^+]*`)
 func TestVerifC07SignManifest(t *testing.T) {
 	defer stats.Flush()
 	rapid.Check(t, func(t *rapid.T) {
-		huge := rapid.IntRange(0, 24).Draw(t, "hugeLine") == 0
+		huge := rapid.IntRange(0, 59).Draw(t, "hugeLine") == 0
 		m := mgen.Gen(t, mgen.GenOpts{Signed: true, HugeLine: huge, BigStreams: rapid.IntRange(0, 7).Draw(t, "bigStreams") == 0})
 		txt := m.Text()
 		token := c07Token(t, "token")
